@@ -145,6 +145,27 @@ func c01Ops(maxL int) []listOp {
 			return ""
 		}})
 	}
+	// Remove through the index options: -k addresses the k-th from the end when negative indices
+	// are on, an oversize index the last element when forward indices are on; otherwise the call
+	// fails and changes nothing.
+	for _, rel := range []struct {
+		n string
+		f func(L int) int
+	}{
+		{"-1", func(L int) int { return -1 }}, {"-2", func(L int) int { return -2 }}, {"-Len", func(L int) int { return -L }}, {"-Len-1", func(L int) int { return -L - 1 }},
+		{"Len", func(L int) int { return L }}, {"Len+2", func(L int) int { return L + 2 }},
+	} {
+		rel := rel
+		ops = append(ops, listOp{"Remove(" + rel.n + ")", 0, always, func(in *listInst) string {
+			i := rel.f(len(in.m.items))
+			gv, gok := in.s.Remove(i)
+			wv, wok := in.m.remove(i)
+			if gv != wv || gok != wok {
+				return fmt.Sprintf("Remove(%d) returned (%s,%v) want (%s,%v) (neg=%v fwd=%v)", i, show(gv), gok, show(wv), wok, in.m.neg, in.m.fwd)
+			}
+			return ""
+		}})
+	}
 	ops = append(ops, listOp{"Insert(nil,0)", 0, always, func(in *listInst) string {
 		if in.s.Insert(nil, 0) {
 			return "Insert(nil,0) returned true"
